@@ -6,7 +6,7 @@ from ..absint import Evaluator, Unsupported
 from ..flow import show, walk_term
 from ..report import ob_ok, ob_fail
 from .common import (is_call, method_call, node_attr, edge_attr, elem_of, strip_wrappers, guards_of,
-                     enclosing_loops, need, strip_sites, _arm_nodes)
+                     enclosing_loops, need, strip_sites, _arm_nodes, strip_not, if_arms)
 
 
 def _raise_name(st):
@@ -79,6 +79,18 @@ def ring_table(fi):
     return out[0]
 
 
+def ring_handlers(fi, name):
+    """if-nodes testing `marker in <open-ring table>` (possibly negated)"""
+    out = []
+    for n in fi.cfg.nodes:
+        if n.kind == "if":
+            test, _ = strip_not(n.ast.test, True)
+            if isinstance(test, ast.Compare) and len(test.ops) == 1 and isinstance(test.ops[0], (ast.In, ast.NotIn)) and \
+                    isinstance(test.comparators[0], ast.Name) and test.comparators[0].id == name:
+                out.append(n)
+    return out
+
+
 def exc_dangling_ring(repo, tier="quick"):
     fi = repo.function("read_cgsmiles:read_cgsmiles")
     cfg, fl = fi.cfg, fi.flow
@@ -138,21 +150,17 @@ def sib_ring_handlers(repo, tier="quick"):
     fi = repo.function("read_cgsmiles:read_cgsmiles")
     cfg, fl = fi.cfg, fi.flow
     name, sites = ring_table(fi)
-    handlers = []
-    for n in cfg.nodes:
-        if n.kind == "if" and isinstance(n.ast.test, ast.Compare) and len(n.ast.test.ops) == 1 and \
-                isinstance(n.ast.test.ops[0], (ast.In, ast.NotIn)) and isinstance(n.ast.test.comparators[0], ast.Name) and \
-                n.ast.test.comparators[0].id == name:
-            handlers.append(n)
+    handlers = ring_handlers(fi, name)
     obs = []
     oid = "SIB.S2-ring-handlers"
     if len(handlers) < 2:
         raise AnalysisError("expected two ring-marker handlers testing membership in '%s', found %d" % (name, len(handlers)), fi.where())
 
     def norm(h):
-        marker = ast.unparse(h.ast.test.left)
-        body = h.ast.body if isinstance(h.ast.test.ops[0], ast.In) else h.ast.orelse
-        other = h.ast.orelse if isinstance(h.ast.test.ops[0], ast.In) else h.ast.body
+        test, tarm, farm = if_arms(h.ast)
+        marker = ast.unparse(test.left)
+        body = tarm if isinstance(test.ops[0], ast.In) else farm
+        other = farm if isinstance(test.ops[0], ast.In) else tarm
         return ([ast.unparse(s).replace(marker, "MARKER") for s in body], [ast.unparse(s).replace(marker, "MARKER") for s in other])
     ref = norm(handlers[0])
     for h in handlers[1:]:
